@@ -657,3 +657,255 @@ Proof.
     destruct (N.testbit fj 0), (N.testbit fj 7); cbn [b2n] in Hmin;
       first [lia | split; [reflexivity|intros Hf; discriminate]].
 Qed.
+
+(* ------------------------------------------------------------------ the fallback loop *)
+
+(* an attempt result after which the loop goes on to the next type *)
+Definition retryable (z : Z) : Prop := z <> 0%Z /\ z <> VK_UNKNOWN.
+
+(* number of indices below n whose bit is set *)
+Definition cnt (bits : N) (n : nat) : nat :=
+  length (filter (fun i => N.testbit bits (N.of_nat i)) (seq 0 n)).
+
+Lemma cnt_S bits n :
+  cnt bits (S n) = (cnt bits n + b2n (N.testbit bits (N.of_nat n)))%nat.
+Proof.
+  unfold cnt. rewrite seq_S, filter_app, app_length. cbn [Nat.add filter].
+  destruct (N.testbit bits (N.of_nat n)); reflexivity.
+Qed.
+
+Lemma clearbit_spec bits idx k :
+  N.testbit (N.clearbit bits (N.of_nat idx)) (N.of_nat k)
+  = N.testbit bits (N.of_nat k) && negb (Nat.eqb idx k).
+Proof.
+  rewrite N.clearbit_eqb. f_equal. f_equal.
+  destruct (Nat.eqb_spec idx k) as [->|Hne].
+  - apply N.eqb_refl.
+  - apply N.eqb_neq. lia.
+Qed.
+
+Lemma cnt_clearbit_le bits idx n : (cnt (N.clearbit bits (N.of_nat idx)) n <= cnt bits n)%nat.
+Proof.
+  induction n as [|n IH]; [reflexivity|]. rewrite !cnt_S, clearbit_spec.
+  destruct (N.testbit bits (N.of_nat n)), (Nat.eqb idx n); cbn [andb negb b2n]; lia.
+Qed.
+
+Lemma cnt_clearbit_lt bits idx n :
+  (idx < n)%nat -> N.testbit bits (N.of_nat idx) = true ->
+  (cnt (N.clearbit bits (N.of_nat idx)) n < cnt bits n)%nat.
+Proof.
+  induction n as [|n IH]; intros Hlt Hbit; [lia|]. rewrite !cnt_S, clearbit_spec.
+  destruct (Nat.eqb_spec idx n) as [->|Hne].
+  - rewrite Hbit. cbn [andb negb b2n]. pose proof (cnt_clearbit_le bits n n). lia.
+  - assert (Hlt' : (idx < n)%nat) by lia. specialize (IH Hlt' Hbit).
+    rewrite andb_true_r. lia.
+Qed.
+
+Section Fallback.
+  Variable n : nat.                    (* number of memory types *)
+  Variable sel : N -> option nat.      (* findMemoryTypeIndex as a function of the requirement's type bits *)
+  Variable E : N -> nat -> Prop.       (* eligibility under given type bits *)
+  Variable c : nat -> nat.             (* cost of a type *)
+  Variable attempt : nat -> Z.
+
+  Let beq (j k : nat) : Prop := (c j < c k)%nat \/ (c j = c k /\ (j <= k)%nat).
+  Let blt (j k : nat) : Prop := (c j < c k)%nat \/ (c j = c k /\ (j < k)%nat).
+
+  Hypothesis sel_some : forall bits j, sel bits = Some j -> E bits j /\ forall k, E bits k -> beq j k.
+  Hypothesis sel_none : forall bits, sel bits = None -> forall k, ~ E bits k.
+  Hypothesis E_clear : forall bits idx k, E (N.clearbit bits (N.of_nat idx)) k <-> E bits k /\ k <> idx.
+  Hypothesis E_dom : forall bits k, E bits k -> (k < n)%nat /\ N.testbit bits (N.of_nat k) = true.
+
+  Lemma fallback_loop_spec : forall fuel bits idx t r,
+    E bits idx -> (forall k, E bits k -> beq idx k) -> (cnt bits n < fuel)%nat ->
+    fallback_loop fuel sel attempt bits idx = (t, r) ->
+    r <> RFuel /\
+    (forall k, In k t -> E bits k) /\
+    StronglySorted blt t /\
+    (forall j, r = ROk j ->
+       exists pre, t = pre ++ [j] /\ attempt j = 0%Z /\ forall k, In k pre -> retryable (attempt k)) /\
+    (forall code, r = RErr code ->
+       exists pre l, t = pre ++ [l] /\ attempt l = code /\ code <> 0%Z /\
+         (forall k, In k pre -> retryable (attempt k)) /\
+         (code <> VK_UNKNOWN -> forall k, E bits k -> In k t)).
+  Proof.
+    induction fuel as [|fuel IH]; intros bits idx t r He Hmin Hfuel Hrun; [lia|].
+    cbn [fallback_loop] in Hrun.
+    assert (Hsingle : forall k, In k [idx] -> E bits k).
+    { intros k0 [<-|[]]. exact He. }
+    assert (Hsorted1 : StronglySorted blt [idx]) by (constructor; constructor).
+    destruct (Z.eqb_spec (attempt idx) 0) as [Hz|Hnz].
+    { injection Hrun as <- <-. split; [discriminate|]. split; [exact Hsingle|]. split; [exact Hsorted1|].
+      split.
+      - intros j Hj. injection Hj as <-. exists []. split; [reflexivity|]. split; [exact Hz|]. intros k0 [].
+      - intros code Hc. discriminate. }
+    destruct (Z.eqb_spec (attempt idx) VK_UNKNOWN) as [Hu|Hnu].
+    { injection Hrun as <- <-. split; [discriminate|]. split; [exact Hsingle|]. split; [exact Hsorted1|].
+      split.
+      - intros j Hj. discriminate.
+      - intros code Hc. injection Hc as <-. exists [], idx.
+        split; [reflexivity|]. split; [reflexivity|]. split; [exact Hnz|]. split.
+        + intros k0 [].
+        + intros Hne. contradiction. }
+    destruct (sel (N.clearbit bits (N.of_nat idx))) as [idx'|] eqn:Hsel.
+    - destruct (fallback_loop fuel sel attempt (N.clearbit bits (N.of_nat idx)) idx') as [t0 r0] eqn:Hrec.
+      injection Hrun as <- <-.
+      destruct (sel_some _ _ Hsel) as [He' Hmin'].
+      destruct (E_dom _ _ He) as [Hlt Hbit].
+      pose proof (cnt_clearbit_lt bits idx n Hlt Hbit) as Hcnt.
+      assert (Hfuel' : (cnt (N.clearbit bits (N.of_nat idx)) n < fuel)%nat) by lia.
+      destruct (IH _ _ _ _ He' Hmin' Hfuel' Hrec) as (Hnf & Hin & Hsort & Hok & Herr).
+      split; [exact Hnf|]. split; [|split; [|split]].
+      + intros k [<-|Hk]; [exact He|]. apply Hin in Hk. now apply E_clear in Hk.
+      + constructor; [exact Hsort|]. apply Forall_forall. intros k Hk. apply Hin in Hk.
+        apply E_clear in Hk. destruct Hk as [Hk Hne]. specialize (Hmin k Hk).
+        unfold beq in Hmin. unfold blt. lia.
+      + intros j Hj. destruct (Hok j Hj) as (pre & -> & Ha & Hpre).
+        exists (idx :: pre). split; [reflexivity|]. split; [exact Ha|].
+        intros k0 [<-|Hk]; [now split|now apply Hpre].
+      + intros code Hc. destruct (Herr code Hc) as (pre & l & -> & Ha & Hc0 & Hpre & Hall).
+        exists (idx :: pre), l. split; [reflexivity|]. split; [exact Ha|]. split; [exact Hc0|]. split.
+        * intros k0 [<-|Hk]; [now split|now apply Hpre].
+        * intros Hne k Hk. destruct (Nat.eq_dec k idx) as [->|Hki]; [now left|].
+          right. apply (Hall Hne). apply E_clear. now split.
+    - injection Hrun as <- <-. split; [discriminate|]. split; [exact Hsingle|]. split; [exact Hsorted1|].
+      split.
+      + intros j Hj. discriminate.
+      + intros code Hc. injection Hc as <-. exists [], idx.
+        split; [reflexivity|]. split; [reflexivity|]. split; [exact Hnz|]. split.
+        * intros k0 [].
+        * intros _ k Hk. destruct (Nat.eq_dec k idx) as [->|Hki]; [now left|].
+          exfalso. apply (sel_none _ Hsel k). apply E_clear. now split.
+  Qed.
+
+  Lemma cnt_le_n bits : (cnt bits n <= n)%nat.
+  Proof.
+    clear. induction n as [|m IH]; [reflexivity|]. rewrite cnt_S.
+    destruct (N.testbit bits (N.of_nat m)); cbn [b2n]; lia.
+  Qed.
+
+  Lemma allocate_with_spec bits t r :
+    allocate_with n sel attempt bits = (t, r) ->
+    r <> RFuel /\
+    (forall k, In k t -> E bits k) /\
+    StronglySorted blt t /\
+    (forall j, r = ROk j ->
+       exists pre, t = pre ++ [j] /\ attempt j = 0%Z /\ forall k, In k pre -> retryable (attempt k)) /\
+    (forall code, r = RErr code ->
+       (t = [] /\ code = VK_FEATURE_NOT_PRESENT /\ forall k, ~ E bits k) \/
+       (exists pre l, t = pre ++ [l] /\ attempt l = code /\ code <> 0%Z /\
+          (forall k, In k pre -> retryable (attempt k)) /\
+          (code <> VK_UNKNOWN -> forall k, E bits k -> In k t))).
+  Proof.
+    unfold allocate_with. destruct (sel bits) as [idx|] eqn:Hsel.
+    - intros Hrun. destruct (sel_some _ _ Hsel) as [He Hmin].
+      pose proof (cnt_le_n bits) as Hc.
+      assert (Hfuel : (cnt bits n < S n)%nat) by lia.
+      destruct (fallback_loop_spec _ _ _ _ _ He Hmin Hfuel Hrun) as (Hnf & Hin & Hsort & Hok & Herr).
+      repeat split; try assumption. intros code Hcd. right. now apply Herr.
+    - intros Hrun. injection Hrun as <- <-. split; [discriminate|]. split; [intros k []|].
+      split; [constructor|]. split.
+      + intros j Hj. discriminate.
+      + intros code Hcd. injection Hcd as <-. left. repeat split. now apply sel_none.
+  Qed.
+End Fallback.
+
+Lemma eligible_clearbit d rq bits bufimg idx k :
+  eligible_type d rq (N.clearbit bits (N.of_nat idx)) bufimg k
+  <-> eligible_type d rq bits bufimg k /\ k <> idx.
+Proof.
+  unfold eligible_type, permitted. rewrite clearbit_spec. split.
+  - intros (f & Hk & (Hb & Hc & Hg) & Hr). apply andb_true_iff in Hb. destruct Hb as [Hb Hne].
+    apply negb_true_iff, Nat.eqb_neq in Hne. split; [|congruence]. exists f. repeat split; assumption.
+  - intros [(f & Hk & (Hb & Hc & Hg) & Hr) Hne]. exists f. repeat split; try assumption.
+    rewrite Hb. cbn [andb]. apply negb_true_iff, Nat.eqb_neq. congruence.
+Qed.
+
+Lemma eligible_dom d rq bits bufimg k :
+  eligible_type d rq bits bufimg k ->
+  (k < length d.(d_types))%nat /\ N.testbit bits (N.of_nat k) = true.
+Proof.
+  intros (f & Hk & (Hb & _) & _). split; [|exact Hb].
+  apply nth_error_Some. unfold type_flags in Hk. congruence.
+Qed.
+
+(* When allocation in the chosen type fails, the remaining eligible types are tried before the request
+   fails.  t = memory types in which an allocation was attempted, in order; r = final result.
+   - the loop terminates (never RFuel);
+   - only eligible types are tried;
+   - they are tried in strictly increasing (cost, index) order: non-decreasing cost, each type at most once;
+   - success in type j: j is the last type tried and every earlier attempt failed with a retryable error;
+   - failure with code c: either nothing was tried, c = FeatureNotPresent and no type is eligible, or c is
+     the result of the last attempt, all earlier attempts failed with retryable errors and, unless c is
+     VK_ERROR_UNKNOWN (which aborts the loop), EVERY eligible type was tried. *)
+Theorem fallback_tries_all_eligible d rq typeBits bufimg attempt t r :
+  params_invalid rq.(r_usage) rq.(r_flags) = false ->
+  allocate d rq typeBits bufimg attempt = (t, r) ->
+  r <> RFuel /\
+  (forall k, In k t -> eligible_type d rq typeBits bufimg k) /\
+  StronglySorted (better d rq bufimg) t /\
+  (forall j, r = ROk j ->
+     exists pre, t = pre ++ [j] /\ attempt j = 0%Z /\ forall k, In k pre -> retryable (attempt k)) /\
+  (forall code, r = RErr code ->
+     (t = [] /\ code = VK_FEATURE_NOT_PRESENT /\ forall k, ~ eligible_type d rq typeBits bufimg k) \/
+     (exists pre l, t = pre ++ [l] /\ attempt l = code /\ code <> 0%Z /\
+        (forall k, In k pre -> retryable (attempt k)) /\
+        (code <> VK_UNKNOWN -> forall k, eligible_type d rq typeBits bufimg k -> In k t))).
+Proof.
+  intros Hvalid. unfold allocate. rewrite Hvalid.
+  apply (allocate_with_spec (length d.(d_types)) (fun bits => select d rq bits bufimg)
+           (fun bits k => eligible_type d rq bits bufimg k) (cost_of d rq bufimg) attempt).
+  - intros bits j Hsel. now apply select_some_spec.
+  - intros bits Hsel. now apply select_none_spec.
+  - intros bits idx k. apply eligible_clearbit.
+  - intros bits k. apply eligible_dom.
+Qed.
+
+Lemma better_irrefl d rq bufimg k : ~ better d rq bufimg k k.
+Proof. unfold better. lia. Qed.
+
+Lemma sorted_better_nodup d rq bufimg t : StronglySorted (better d rq bufimg) t -> NoDup t.
+Proof.
+  induction 1 as [|a l Hs IH Hall]; constructor; [|exact IH].
+  intros Hin. rewrite Forall_forall in Hall. apply (better_irrefl d rq bufimg a). now apply Hall.
+Qed.
+
+Lemma sorted_better_cost d rq bufimg t :
+  StronglySorted (better d rq bufimg) t ->
+  StronglySorted (fun a b => (cost_of d rq bufimg a <= cost_of d rq bufimg b)%nat) t.
+Proof.
+  induction 1 as [|a l Hs IH Hall]; constructor; [exact IH|].
+  eapply Forall_impl; [|exact Hall]. intros b Hb. unfold better in Hb. lia.
+Qed.
+
+(* each type is tried at most once, in non-decreasing cost order *)
+Corollary fallback_order d rq typeBits bufimg attempt t r :
+  params_invalid rq.(r_usage) rq.(r_flags) = false ->
+  allocate d rq typeBits bufimg attempt = (t, r) ->
+  NoDup t /\ StronglySorted (fun a b => (cost_of d rq bufimg a <= cost_of d rq bufimg b)%nat) t.
+Proof.
+  intros Hv Hrun. destruct (fallback_tries_all_eligible _ _ _ _ _ _ _ Hv Hrun) as (_ & _ & Hs & _).
+  split; [now apply (sorted_better_nodup d rq bufimg)|now apply sorted_better_cost].
+Qed.
+
+(* the request fails for lack of memory only after every eligible type was tried (and failed) *)
+Corollary oom_only_after_all_tried d rq typeBits bufimg attempt t :
+  params_invalid rq.(r_usage) rq.(r_flags) = false ->
+  allocate d rq typeBits bufimg attempt = (t, RErr VK_OOM) ->
+  forall k, eligible_type d rq typeBits bufimg k -> In k t /\ attempt k <> 0%Z.
+Proof.
+  intros Hv Hrun k Hk.
+  destruct (fallback_tries_all_eligible _ _ _ _ _ _ _ Hv Hrun) as (_ & _ & _ & _ & Herr).
+  destruct (Herr VK_OOM eq_refl) as [(_ & Hc & _)|(pre & l & -> & Ha & Hc0 & Hpre & Hall)];
+    [discriminate|].
+  assert (Hin : In k (pre ++ [l])) by (apply Hall; [discriminate|exact Hk]).
+  split; [exact Hin|]. apply in_app_or in Hin. destruct Hin as [Hin|[<-|[]]].
+  - now apply Hpre.
+  - now rewrite Ha.
+Qed.
+
+(* invalid flag combinations are rejected before any type is tried *)
+Lemma allocate_invalid d rq typeBits bufimg attempt :
+  params_invalid rq.(r_usage) rq.(r_flags) = true ->
+  allocate d rq typeBits bufimg attempt = ([], RErr VK_UNKNOWN).
+Proof. intros H. unfold allocate. now rewrite H. Qed.
